@@ -1174,6 +1174,16 @@ class Interp:
     ev_CXXTemporaryObjectExpr = ev_CXXConstructExpr
 
     def ev_CXXNewExpr(self, n, st, fr):
+        if n.get('nothrow') and not getattr(self, '_in_nothrow', False):
+            # the allocation may fail: one path on which the expression is a null pointer and nothing is constructed
+            s_fail = st.copy()
+            s_fail.note((nloc(n), 'new(nothrow)=NULL'))
+            self._in_nothrow = True
+            try:
+                ok = self.ev_CXXNewExpr(n, st, fr)
+            finally:
+                self._in_nothrow = False
+            return ok + [(s_fail, NULL)]
         at = self.T(n['at'])
         obj = ('new', n['_id'], fr.ctx)
         out = []
